@@ -19,11 +19,14 @@ import re
 
 from common import qlit, qlist, zlit, coqc_many, parse_evals, parse_zlist, VERIF
 
+MSE_DEFAULTS = [0.56, 0.7060001671878492, 0.3140003593919741, 0.7279994935840365]   # overwritten from the source in run()
+
 THEOREMS = ["C05_weighted_mean_bounds", "C05_cx_rate_is_bounded_mean", "C05_population_is_mean",
             "C05_cx_formula", "C05_cx_vanishes", "C05_bes_formula", "C05_bes_vanishes",
             "C05_zeff_formula", "C05_zeff_between", "C05_ion_density_formula",
             "C05_interaction_energy_frame", "C05_cx_rate_bounded_for_nonnegative_tables", "C05_history_independence",
-            "C05_composition_add_semantics", "C05_sqrt_oracle_bound"]
+            "C05_composition_add_semantics", "C05_sqrt_oracle_bound", "C05_mse_components_sum_to_radiance",
+            "C05_mse_components_symmetric_nonnegative", "C05_mse_guards", "C05_bes_line_policy"]
 
 SCALE_CX = 2.0 ** -112      # ~ 1.9e-34 W m^3          (the same constants are in c05_impl.py)
 SCALE_PEC = 2.0 ** -110
@@ -52,6 +55,21 @@ def read_constants(repo):
         raise RuntimeError("constants.pyx: RECIP_4_PI is not an arithmetic expression: %r" % expr)
     vals["RECIP_4_PI"] = float(eval(expr, {"__builtins__": {}}, {"M_PI": math.pi}))
     vals["RECIP_4_PI_expr"] = expr
+    return vals
+
+
+def read_mse_defaults(repo):
+    """SIGMA_TO_PI, SIGMA1_TO_SIGMA0, PI2_TO_PI3, PI4_TO_PI3 of beam_emission.pyx and that __init__ defaults to them"""
+    src = open(os.path.join(repo, "cherab/core/model/beam/beam_emission.pyx")).read()
+    vals = []
+    for name in ("SIGMA_TO_PI", "SIGMA1_TO_SIGMA0", "PI2_TO_PI3", "PI4_TO_PI3"):
+        m = re.search(r"^%s\s*=\s*([0-9.eE+-]+)\s*(#.*)?$" % name, src, re.M)
+        if not m:
+            raise RuntimeError("beam_emission.pyx: cannot read %s" % name)
+        vals.append(float(m.group(1)))
+    if not re.search(r"sigma_to_pi=SIGMA_TO_PI,\s*sigma1_to_sigma0=SIGMA1_TO_SIGMA0,\s*pi2_to_pi3=PI2_TO_PI3,\s*pi4_to_pi3=PI4_TO_PI3\)",
+                     src):
+        raise RuntimeError("beam_emission.pyx: BeamEmissionLine.__init__ no longer defaults to the four module constants")
     return vals
 
 
@@ -129,6 +147,82 @@ def gen_beam(rng, exact):
     return beam, bp, cls
 
 
+def zero_table(rng, base):
+    """a table that is exactly zero at the evaluation point: all coefficients 0, one of the provider's null-rate
+    objects, or a table that vanishes below an energy threshold far above every beam energy"""
+    kind = rng.choice(["coeffs", "null", "threshold"])
+    if kind == "coeffs":
+        return [0.0] * len(base) + [0.0]
+    if kind == "null":
+        return [0.0] * len(base) + [0.0, 1.0]
+    return list(base) + [2.0 ** 60]
+
+
+def threshold_table(rng, base):
+    """vanishes below 1e3 .. 1.3e5 eV/amu: zero at some evaluation points, non-zero at others"""
+    return list(base) + [2.0 ** rng.randint(10, 17)]
+
+
+def is_zero_table(c, n):
+    return len(c) > n and (not any(c[:n]) or c[n] >= 2.0 ** 60)
+
+
+def zero_patterns_cx(rng, case):
+    """exact zeros in every role and position of the CX / population tables of a single-evaluation case"""
+    rates = case["rates"]
+    exc = [r for r in rates if r["m"] != 1]
+    tags = []
+    if rng.random() < 0.5:
+        pat = rng.choice(["ground", "first excited", "last excited", "several", "all excited", "thresholds"])
+        chosen = []
+        if pat == "ground":
+            chosen = [r for r in rates if r["m"] == 1]
+        elif pat == "first excited":
+            chosen = exc[:1]
+        elif pat == "last excited":
+            chosen = exc[-1:]
+        elif pat == "several":
+            chosen = [r for r in rates if rng.random() < 0.6]
+        elif pat == "all excited":
+            chosen = exc
+        if pat == "thresholds":
+            for r in rates:
+                if rng.random() < 0.6:
+                    r["c"] = threshold_table(rng, r["c"][:6])
+        for r in chosen:
+            r["c"] = zero_table(rng, r["c"][:6])
+        tags.append("cx:" + pat)
+    if exc and rng.random() < 0.4:
+        pat = rng.choice(["entries", "entries", "whole metastable", "thresholds"])
+        for j, r in enumerate(exc):
+            for i, s in enumerate(case["species"]):
+                if s["charge"] == 0:
+                    continue
+                if pat == "entries" and rng.random() < 0.3:
+                    r["pop"][i] = zero_table(rng, r["pop"][i][:4])
+                elif pat == "whole metastable" and j == 0:
+                    r["pop"][i] = zero_table(rng, r["pop"][i][:4])
+                elif pat == "thresholds" and rng.random() < 0.5:
+                    r["pop"][i] = threshold_table(rng, r["pop"][i][:4])
+        tags.append("pop:" + pat)
+    case["zero_patterns"] = tags
+
+
+def zero_patterns_bes(rng, case):
+    tags = []
+    if rng.random() < 0.45:
+        pat = rng.choice(["entries", "all", "thresholds"])
+        for i, s in enumerate(case["species"]):
+            if s["charge"] == 0:
+                continue
+            if pat == "all" or (pat == "entries" and rng.random() < 0.4):
+                case["pecs"][i] = zero_table(rng, case["pecs"][i][:4])
+            elif pat == "thresholds" and rng.random() < 0.6:
+                case["pecs"][i] = threshold_table(rng, case["pecs"][i][:4])
+        tags.append("pec:" + pat)
+    case["zero_patterns"] = tags
+
+
 def gen_labels(rng):
     """donor metastable labels of the provider: 1 is the ground state wherever it stands; the other labels need
     not be 2, 3, ... and come in any order"""
@@ -185,9 +279,9 @@ def apply_scale(c, rng, bes=False):
         if "dir" in c["beam"]:
             c["beam"]["dir"] = [v * kd for v in c["beam"]["dir"]]
     for r in c.get("rates", []) + (c.get("prov") or {}).get("rates", []):
-        r["c"] = [v * kr for v in r["c"]]
+        r["c"] = [v * kr for v in r["c"][:6]] + r["c"][6:]          # not the energy threshold / null flag
     for pc in c.get("pecs", []):
-        pc[:] = [v * kr for v in pc]
+        pc[:] = [v * kr for v in pc[:4]] + pc[4:]
     c["scaled"] = True
 
 
@@ -221,6 +315,7 @@ def gen_case(rng, kind, nel):
     case["beam"], case["beam_point"], case["beam_class"] = gen_beam(rng, exact)
     if kind == "bes":
         case["pecs"] = [[0.0] * 4 if s["charge"] == 0 else rnd_coeffs(rng, UNIT3, SCALE_PEC) for s in case["species"]]
+        zero_patterns_bes(rng, case)
         decorate(case, rng, kind)
         if rng.random() < 0.3:
             apply_scale(case, rng, bes=True)
@@ -259,8 +354,24 @@ def gen_case(rng, kind, nel):
     case["rates"] = [{"m": m, "c": rnd_coeffs(rng, UNIT5, SCALE_CX),
                       "pop": [[0.0] * 4 if s["charge"] == 0 else rnd_coeffs(rng, UNIT3, 2.0 ** -3) for s in case["species"]]}
                      for m in gen_labels(rng)]
+    zero_patterns_cx(rng, case)
     if rng.random() < 0.3 and case["receiver_class"] not in ("subnormal density", "subnormal temperature"):
         apply_scale(case, rng)
+    return case
+
+
+def gen_mse_case(rng, nel):
+    """a beam-emission case whose Stark components can be read back one group at a time: beam along z, observed
+    along x (no Doppler shift), B perpendicular to the beam, a cold beam (narrow components)"""
+    case = gen_case(rng, "bes", nel)
+    while not case["species"] or case["beam"]["energy"] == 0.0:
+        case = gen_case(rng, "bes", nel)
+    case["kind"] = "mse"
+    case["obs"] = [1.0, 0.0, 0.0]
+    case["beam"]["dir"] = [0.0, 0.0, rng.choice([0.5, 1.0, 2.0, 3.0])]
+    case["beam"]["temperature"] = 2.0 ** -12
+    by = rng.choice([-1, 1]) * rng.randint(4, 16) / 4.0
+    case["b0"] = [rng.choice([0.0, 0.0, by / 2]), by, 0.0]
     return case
 
 
@@ -300,7 +411,14 @@ def gen_new_key(rng, nel, keys, ionised=False):
 
 def gen_provider(rng):
     scale = SCALE_CX * (pow2(rng, -40, 40) if rng.random() < 0.3 else 1.0)
-    return {"seed": rng.randrange(1 << 30), "rates": [{"m": m, "c": rnd_coeffs(rng, UNIT5, scale)} for m in gen_labels(rng)]}
+    rates = [{"m": m, "c": rnd_coeffs(rng, UNIT5, scale)} for m in gen_labels(rng)]
+    for r in rates:
+        x = rng.random()
+        if x < 0.2:
+            r["c"] = zero_table(rng, r["c"])
+        elif x < 0.45:
+            r["c"] = threshold_table(rng, r["c"])
+    return {"seed": rng.randrange(1 << 30), "rates": rates}
 
 
 def gen_eval(rng, kind, exact, cfg, prev=None):
@@ -512,6 +630,11 @@ def coq_case(impl, case, out):
                                  vlit(b["dir"]), qlit(b["energy"]))
     ion_idx = [i for i, s in enumerate(sp) if s[1] >= 1]
     log = out["log"]
+    if case["kind"] == "mse":
+        ratios = case.get("bes_ratios") or MSE_DEFAULTS
+        return "check_mse K %s [%s] %s %s %s %s %s %s" % (
+            sps, "; ".join(qlist(c) for c in case["pecs"]), common, qlist(ratios), qlit(100.0), qlit(1.0e19),
+            zlit(out["code"]), qlist(out["cumulative"]))
     if case["kind"] == "bes":
         pl = {l[1]: l[2] for l in log if l[0] == "pec"}
         plog = [qlist(pl[i]) for i in ion_idx] if out["code"] == 1 and all(i in pl for i in ion_idx) else []
@@ -576,6 +699,83 @@ def log_consistency(case, out):
         if not inside and att:
             bad.append("attenuator sampled outside 0 <= z <= length")
     return bad
+
+
+# ---------------------------------------------------------------------------------------------
+# a history as an event list for the cached state machine of Model/C05_History.v (run by Coq)
+# ---------------------------------------------------------------------------------------------
+def machine_text(impl, hist, evals, probed_txt):
+    """check_machine K probed config events expected  for one history; evals = [(case, out)] of its cx / bes evaluations
+    in order"""
+    cfg = hist["cfg"]
+    bl = lambda v: "true" if v else "false"
+
+    def obj(s):
+        return "mkobj %s%%Z %s%%Z %s %s %s %s" % (zlit(s["el"]), zlit(s["charge"]), qlit(s["n0"]), qlit(s["t0"]), vlit(s["v0"]),
+                                                 bl(s.get("form", "fn") == "fn"))
+
+    keys = set()
+    for grp in [cfg.get("species_raw") or cfg["species"]] + [st.get("species_raw") or st.get("species") or [] for st in hist["steps"]]:
+        for t in (grp if isinstance(grp, list) else [grp]):
+            if t["charge"] >= 1:
+                keys.add((t["el"], t["charge"]))
+    keys = sorted(keys)
+
+    def prov(pv):
+        ms = sorted({r["m"] for r in pv["rates"]})
+        pop = ["(%s%%Z, %s%%Z, %s%%Z, %s)" % (zlit(m), zlit(el), zlit(ch), qlist(impl.pop_coeffs(pv["seed"], m, el, ch)))
+               for m in ms for el, ch in keys]
+        pec = ["(%s%%Z, %s%%Z, %s)" % (zlit(el), zlit(ch), qlist(impl.pec_coeffs(pv["seed"], el, ch))) for el, ch in keys]
+        return "(mkprov [%s] [%s] [%s])" % ("; ".join("(%s%%Z, %s)" % (zlit(r["m"]), qlist(r["c"])) for r in pv["rates"]),
+                                            "; ".join(pop), "; ".join(pec))
+
+    beam = dict(cfg["beam"])
+    raw0 = cfg.get("species_raw") or cfg["species"]
+    config = ("(mkConfig pt (comp_set pt [%s]) (bfield_fn %s %s) %s%%Z %s%%Z %s %s (att_fn %s) %s)"
+              % ("; ".join(obj(t) for t in raw0), vlit(cfg["b0"]), bl(cfg.get("b_form", "fn") == "fn"),
+                 zlit(cfg["line"]["el"]), zlit(cfg["line"]["charge"]), prov(cfg["prov"]),
+                 qlit(beam["length"]), qlit(beam["att0"]), qlit(beam["energy"])))
+    events = []
+    cur = [dict(t) for t in impl.effective_species(raw0)]
+    for st in hist["steps"]:
+        op = st["op"]
+        mbeam = False
+        if op in ("add_new", "add_existing"):
+            events.append("Mutate pt (MAdd pt (%s))" % obj(st["species"]))
+            cur = impl.effective_species(cur + [st["species"]])
+        elif op in ("assign", "set", "beam_plasma"):
+            raw = st.get("species_raw") or st["species"]
+            events.append("Mutate pt (MSet pt [%s])" % "; ".join(obj(t) for t in raw))
+            cur = impl.effective_species(raw)
+        elif op == "clear_readd":
+            raw = st.get("species_raw") or st["species"]
+            events.append("Mutate pt (MClear pt)")
+            events += ["Mutate pt (MAdd pt (%s))" % obj(t) for t in raw]
+            cur = impl.effective_species(raw)
+        elif op == "reassign_same" and st["what"] == "composition":
+            events.append("Mutate pt (MSet pt [%s])" % "; ".join(obj(t) for t in cur))
+        elif op == "reassign_same" and st["what"] == "add_same":
+            events += ["Mutate pt (MAdd pt (%s))" % obj(t) for t in cur]
+        elif op == "b_field":
+            events.append("Mutate pt (MBfield pt (bfield_fn %s %s))" % (vlit(st["b0"]), bl(st.get("b_form", "fn") == "fn")))
+        elif op == "beam_energy":
+            beam["energy"], mbeam = st["energy"], True
+        elif op == "beam_length":
+            beam["length"], mbeam = st["length"], True
+        elif op == "attenuator":
+            beam["att0"], mbeam = st["att0"], True
+        elif op == "atomic_data":
+            events.append("Mutate pt (MProvider pt %s)" % prov(st["prov"]))
+        elif op == "cx_line":
+            events.append("Mutate pt (MLine pt %s%%Z %s%%Z)" % (zlit(st["line"]["el"]), zlit(st["line"]["charge"])))
+        if mbeam:
+            events.append("Mutate pt (MBeam pt %s (att_fn %s) %s)" % (qlit(beam["length"]), qlit(beam["att0"]), qlit(beam["energy"])))
+        for ev in st["evals"]:
+            if ev["kind"] in ("cx", "bes"):
+                events.append("Observe%s pt (%s, %s) %s %s" % ("CX" if ev["kind"] == "cx" else "BES", vlit(ev["plasma_point"]),
+                                                               vlit(ev["beam_point"]), qlit(ev["beam_point"][2]), vlit(ev["dir"])))
+    expected = "; ".join("(%s%%Z, %s)" % (zlit(o["code"]), qlit(o["radiance"])) for c, o in evals)
+    return "check_machine K %s\n    %s\n    [%s]\n    [%s]" % (probed_txt, config, ";\n     ".join(events), expected)
 
 
 # ---------------------------------------------------------------------------------------------
@@ -665,6 +865,9 @@ def run(ctx):
         "comparator in Model/C05_Check.v (relative 2^-40 on radiance and on every logged argument)",
         "libm sqrt and IEEE double rounding: the model takes sqrt as an oracle; the correspondence instantiates it with "
         "floor(sqrt(x 4^64))/2^64 computed in Coq (error bound proved in Proofs/C05_Check.v)",
+        "Stark multiplet: the positions of the components (Doppler shift, Stark splitting, thermal width) are not modelled; the harness "
+        "places its read-back windows between the components with the splitting factor 2.77e-8 copied from mse.pyx; erf saturation to 1.0",
+        "default Stark ratios SIGMA_TO_PI .. PI4_TO_PI3 are re-read from beam_emission.pyx on every run (fail-closed regex)",
         "raysect Vector3D / Function3D autowrap / Spectrum, Maxwellian as a pass-through of its three functions, "
         "BeamEmissionMultiplet + erf (beam-emission total is read back as the wavelength integral of the spectrum)",
     ]
@@ -677,7 +880,7 @@ def run(ctx):
     ]
     ctx.rebuild()
     ctx.proofs("Properties.C05", THEOREMS, extra_modules=("Model.C05_Check", "Proofs.C05_Check", "Model.C05_History",
-                                                          "Proofs.C05_History"))
+                                                          "Proofs.C05_History", "Model.C05_Mse", "Proofs.C05_Mse"))
 
     import cherab
     from common import REPO
@@ -685,6 +888,7 @@ def run(ctx):
     import c05_impl as impl
 
     # ---- (T) constants ------------------------------------------------------------------------
+    MSE_DEFAULTS[:] = read_mse_defaults(REPO)
     K = read_constants(REPO)
     k4pi, e_charge, amu = K["RECIP_4_PI"], K["ELEMENTARY_CHARGE"], K["ATOMIC_MASS"]
     ok_k = abs(k4pi * 4 * math.pi - 1) <= 4e-16 and e_charge > 0 and amu > 0
@@ -725,8 +929,9 @@ def run(ctx):
     # ---- cases: corpus first, then generated ----------------------------------------------------
     rng = ctx.rng
     nel = len(impl.ELEMENTS)
-    n_cx, n_bes, n_pl = (70, 28, 20) if ctx.quick else (4000, 1400, 600)
-    n_hist, n_steps = (10, 6) if ctx.quick else (150, 9)
+    n_cx, n_bes, n_pl = (60, 24, 16) if ctx.quick else (4000, 1400, 600)
+    n_hist, n_steps = (8, 6) if ctx.quick else (150, 9)
+    n_mse = 6 if ctx.quick else 200
     cases = []
     for p in sorted(glob.glob(os.path.join(VERIF, "corpus", "C05", "*.json"))):
         if not os.path.basename(p).startswith("history_"):
@@ -749,12 +954,21 @@ def run(ctx):
     if not ctx.replay:
         cases += [gen_case(rng, "bes", nel) for _ in range(n_bes)]
         cases += [gen_case(rng, "plasma", nel) for _ in range(n_pl)]
+        cases += [gen_mse_case(rng, nel) for _ in range(n_mse)]
         histories += [gen_history(rng, nel, n_steps) for _ in range(n_hist)]
 
-    outs, texts, search_fails, log_fails, fresh_fails, hist_views = [], [], [], [], [], []
+    outs, texts, search_fails, log_fails, fresh_fails, hist_views, hist_evals = [], [], [], [], [], [], []
+
+    ambiguous = []
 
     def record(i, case, out):
         outs.append(out)
+        if impl.threshold_margin(out.get("log", [])) < 2.0 ** -30:
+            # an evaluation energy within 2^-30 of a table's threshold: which side it falls on is a rounding matter;
+            # counted, excluded from the comparison with the model and from the search
+            ambiguous.append(i)
+            texts.append("true")
+            return
         texts.append(coq_case(impl, case, out))
         for f in impl.property_failures(case, out, 1 / (4 * math.pi), e_charge, amu):
             search_fails.append((i, f))
@@ -770,8 +984,11 @@ def run(ctx):
         ctx.crumb({"history": hist})
         views = []
         hist_views.append(views)
+        hist_evals.append([])
         for case, out, k in impl.run_history(hist, views):
             case["_history"], case["_step"], case["_op"] = hi, k, hist["steps"][k]["op"]
+            if case["kind"] in ("cx", "bes"):
+                hist_evals[-1].append((case, out))
             cases.append(case)
             record(len(cases) - 1, case, out)
             # the same configuration on a freshly built scene must give bitwise the same result
@@ -814,11 +1031,61 @@ def run(ctx):
                                       for k, n in zip(view["keys"], view["density_at_origin"]))
             steps.append("([%s], %s)" % ("; ".join(cop(o) for o in ops), seen))
         hist_lines.append("check_comp_history [] [%s]" % ";\n    ".join(steps))
+    # the cached state machine run by Coq with the PROBED notification table on whole histories
+    probed_txt = "[%s]" % "; ".join("(%d%%Z, (%s, %s))" % (k, str(a).lower(), str(b).lower()) for k, (a, b) in sorted(probed.items()))
+    n_machine = len(histories)
+    mach_hist = [hi for hi in range(len(histories))
+                 if all(impl.threshold_margin(o.get("log", [])) >= 2.0 ** -30 for _, o in hist_evals[hi])][:n_machine]
+    mach_files = []
+    for j in range(0, len(mach_hist), 2):
+        chunk = mach_hist[j:j + 2]
+        txt = (header.replace("Cherab.Model.C05_Check.", "Cherab.Model.C05_Check Cherab.Model.C05_History.")
+               + "Definition results : list bool := [\n  "
+               + ";\n  ".join(machine_text(impl, histories[hi], hist_evals[hi], probed_txt) for hi in chunk)
+               + "].\nEval vm_compute in (failing results).\n")
+        mach_files.append((ctx.write_gen("machine_%03d.v" % (j // 2), txt), chunk))
+    setter, cx_none, cache = impl.line_policy_cases()
+    bl = lambda v: "true" if v else "false"
+    pol_file = ctx.write_gen("line_policy.v", header.replace("Cherab.Model.C05_Check.", "Cherab.Model.C05_Check Cherab.Model.C05_Mse.")
+                             + "Definition results : list bool := [\n  "
+                             + ";\n  ".join(["check_bes_line (%s, %s, %s%%Z, %s%%Z, %s%%Z, %s%%Z)" % (bl(n), bl(f), zlit(ch), zlit(u), zlit(lo), zlit(c))
+                                              for n, f, ch, u, lo, c in setter]
+                                             + ["(setter_code (cx_line_setter %s) =? %s)%%Z" % (bl(n), zlit(c)) for n, c in cx_none]
+                                             + ["check_bes_cache (%s%%Z, %s%%Z, %s%%Z, %s%%Z)" % (zlit(b), zlit(l), zlit(ch), zlit(c)) for b, l, ch, c in cache])
+                             + "].\nEval vm_compute in (failing results).\n")
     hist_file = None
     if hist_lines:
         hist_file = ctx.write_gen("composition_histories.v", header + "Definition results : list bool := [\n  "
                                   + ";\n  ".join(hist_lines) + "].\nEval vm_compute in (failing results).\n")
-    res = coqc_many([f for f, _ in files] + ([hist_file] if hist_file else []), timeout=900)
+    res = coqc_many([f for f, _ in files] + ([hist_file] if hist_file else []) + [pol_file] + [f for f, _ in mach_files], timeout=900)
+    mach_bad = []
+    for f, chunk in mach_files:
+        ok, outp = res[f]
+        vals = parse_evals(outp) if ok else []
+        good = ok and len(vals) == 1
+        failing = parse_zlist(vals[0]) if good else []
+        ctx.obligation("state machine %s: run_live with the probed notification table, run by Coq on %d whole histories (%d evaluations) == "
+                       "outcome kind exactly and radiance at 2^-40 of every evaluation of the live objects, in order"
+                       % (os.path.basename(f), len(chunk), sum(len(hist_evals[hi]) for hi in chunk)), "correspondence",
+                       good and not failing, outp if not good else "DIFF in histories %s" % [chunk[i] for i in failing])
+        if not good:
+            ctx.broken.append("coqc failed on %s: %s" % (f, outp[-500:]))
+        mach_bad += [chunk[i] for i in failing]
+    for hi in mach_bad:
+        log_fails.append((n_single, "the live objects of history %d do not follow the cached state machine with the probed table" % hi))
+    ok, outp = res[pol_file]
+    vals = parse_evals(outp) if ok else []
+    good = ok and len(vals) == 1
+    failing = parse_zlist(vals[0]) if good else []
+    ctx.obligation("line setters and BeamEmissionLine._populate_cache: outcome kind (accepted / ValueError / TypeError) == the policy of "
+                   "Model/C05_Mse.v run by Coq, exactly (%d calls on every element, several charges and transitions, None)"
+                   % (len(setter) + len(cx_none) + len(cache)), "correspondence", good and not failing,
+                   outp if not good else "DIFF at %s" % failing)
+    if not good:
+        ctx.broken.append("coqc failed on %s: %s" % (pol_file, outp[-500:]))
+    for j in failing:
+        log_fails.append((0, "line setter / cache check outcome differs from the policy model: entry %d of %r"
+                          % (j, (setter + cx_none + cache)[j])))
     if hist_file:
         ok, outp = res[hist_file]
         vals = parse_evals(outp) if ok else []
@@ -943,6 +1210,29 @@ def run(ctx):
             "history_reassign_same": hist([st["what"] for h in histories for st in h["steps"] if st["op"] == "reassign_same"]),
             "history_ops": hist([st["op"] for h in histories for st in h["steps"]]),
             "api_expectations": API_COUNT[0],
+            "histories_run_through_the_state_machine_in_coq": len(mach_hist),
+            "stark_multiplet_cases": n_mse if not ctx.replay else 0,
+            "cases_with_an_exactly_zero_cx_table": sum(1 for c in gen if c["kind"] == "cx" and any(is_zero_table(r["c"], 6) for r in c["rates"])),
+            "...ground_state_table_zero": sum(1 for c in gen if c["kind"] == "cx" and any(r["m"] == 1 and is_zero_table(r["c"], 6) for r in c["rates"])),
+            "...some_but_not_all_excited_tables_zero": sum(1 for c in gen if c["kind"] == "cx" and 0 < sum(1 for r in c["rates"] if r["m"] != 1 and is_zero_table(r["c"], 6))
+                                                           < sum(1 for r in c["rates"] if r["m"] != 1)),
+            "...all_excited_tables_zero": sum(1 for c in gen if c["kind"] == "cx" and len(c["rates"]) > 1 and
+                                              all(is_zero_table(r["c"], 6) for r in c["rates"] if r["m"] != 1)),
+            "cases_with_an_exactly_zero_population_table_of_an_ion": sum(1 for c in gen if c["kind"] == "cx" and any(
+                is_zero_table(pc, 4) for r in c["rates"] if r["m"] != 1 for pc, sp in zip(r["pop"], c["species"]) if sp["charge"] >= 1)),
+            "cases_with_an_exactly_zero_beam_emission_table_of_an_ion": sum(1 for c in gen if c["kind"] == "bes" and any(
+                is_zero_table(pc, 4) for pc, sp in zip(c["pecs"], c["species"]) if sp["charge"] >= 1)),
+            "cases_with_null_rate_objects_for_ions": sum(1 for c in gen if any(impl.is_null(r["c"], 6) or any(impl.is_null(pc, 4) for pc in r["pop"])
+                                                                                for r in c.get("rates", [])) or any(impl.is_null(pc, 4) for pc in c.get("pecs", []))),
+            "cases_with_energy_threshold_tables": sum(1 for c in gen if any((len(r["c"]) > 6 and 0 < r["c"][6] < 2.0 ** 60) or
+                                                                             any(len(pc) > 4 and 0 < pc[4] < 2.0 ** 60 for pc in r["pop"])
+                                                                             for r in c.get("rates", [])) or
+                                                      any(len(pc) > 4 and 0 < pc[4] < 2.0 ** 60 for pc in c.get("pecs", []))),
+            "evaluations_in_which_a_rate_object_returned_exactly_0": sum(1 for o in gouts if any(l[0] in ("cx", "pop", "pec") and l[3] == 0.0 for l in o.get("log", []))),
+            "evaluations_in_which_a_cx_coefficient_was_0_and_another_was_not": sum(
+                1 for o in gouts if {l[3] == 0.0 for l in o.get("log", []) if l[0] == "cx"} == {True, False}),
+            "threshold_ambiguous_excluded": len(ambiguous),
+            "species_with_zero_density": sum(1 for c in gen for sp in c["species"] if sp["n0"] == 0),
         },
         "tolerance": {"outcome kind, call counts, sampled points": "exact",
                       "radiance, BeamCXPEC arguments, population / emission coefficient arguments, Z_eff, ion density": "relative 2^-40",
@@ -951,6 +1241,10 @@ def run(ctx):
                       "RECIP_4_PI vs 1/(4 pi) (Gen/C05/Tie.v, kernel-checked)": "relative 2^-51",
                       "notification table (Gen/C05/Tie.v, kernel-checked)": "exact booleans, probed from the implementation",
                       "beam-emission / default-line-shape totals read back from the spectrum": "relative 2^-40",
+                      "whole histories through run_live (cached state machine, probed table) run by Coq: outcome kind per evaluation": "exact",
+                      "... radiance per evaluation": "relative 2^-40",
+                      "Stark multiplet: integrals of the real spectrum over five nested windows vs cumulative component intensities of the model": "relative 2^-40",
+                      "line setters / BeamEmissionLine cache check: outcome kind vs policy model run by Coq": "exact",
                       "executable property (search)": "relative 1e-9"},
         "probed_notification_table": {impl.PROBE_KINDS[k]: list(v) for k, v in sorted(probed.items())},
         "partial": ["the wavelength integral is taken as the radiance handed to the line shape (CX: recording LineShapeModel; "
